@@ -143,7 +143,7 @@ func (g *genCtx) guardOf(fn string) (op string, table string) {
 	})
 	if is == nil {
 		g.miss("bounds guard in " + fn)
-		return "none", ""
+		return "gt", ""
 	}
 	be := is.Cond.(*ast.BinaryExpr)
 	table = exprString(be.Y.(*ast.CallExpr).Args[0])
